@@ -508,7 +508,7 @@ def stepServer (s : DState) (toks : List String) : DState × String :=
   match toks with
   | ["update", f, ks] =>
     if s.sended then (s, "bad-op") else
-    let keys := (decList ks).map (fun k => k ++ "~" ++ toString s.supd)
+    let keys := decList ks
     let v : View := { configs := some keys, forced := tokBool f, reason := some [("config", 1)] }
     let s1 := if s.pipe.chan.length < chanCap then s else srvSettle 1000 s   -- ConfigUpdate blocks while the channel is full
     ({ s1 with pipe := pev s1.pipe (.configUpdate v), supd := s1.supd + 1
@@ -544,7 +544,8 @@ def stepServer (s : DState) (toks : List String) : DState × String :=
   | ["sync"] =>
     if srvStuck s || s.sended then (s, "bad-op") else
     let s1 := srvSettle 100000 s
-    (s1, srvSummary s1)
+    -- a new window: from here on the logs speak about what is accepted / delivered from now on (`mark`)
+    ({ s1 with pipe := pev s1.pipe .mark, sforced := [] }, srvSummary s1)
   | ["end"] =>
     if s.sended then (s, "bad-op") else
     let s0 := srvRelease s
